@@ -15,7 +15,7 @@ from ..bridge import guard, Raised, parse_domain, parse_problem, REPO
 from ..gens import problems as gp
 from ..refsem import RefProblem, RefError, parse_typed_list
 from ..runner import CaseResult
-from .c05 import dom, valid_text, observe_problem, expected, compare
+from .c05 import dom, valid_text, observe_problem, expected, compare, canon_cmp
 from .c08 import shipped_domains
 from .c20 import norm
 
@@ -89,15 +89,15 @@ def text_reading(text):
     g = rp.goal
     for it in (g[1:] if g and g[0] == "and" else [g] if g else []):
         if it and it[0] in ("=", "<", ">", "<=", ">="):
-            numgoals.append(sexp.dumps(norm(it)))
+            numgoals.append(sexp.dumps(norm(canon_cmp(it))))
         else:
             goals.append(tuple(it))
     return {"name": rp.name, "objects": dict(rp.objects), "atoms": set(rp.atoms), "fluents": dict(rp.fluents),
             "goals": goals, "numgoals": sorted(numgoals)}
 
 
-def roundtrip(r, P, D, label, tags):
-    want = guard(observe_problem, P)
+def roundtrip(r, P, D, label, tags, snapshot=None):
+    want = guard(observe_problem, P) if snapshot is None else snapshot
     if isinstance(want, Raised):
         r.fail("unreadable-problem", f"{label}: cannot observe parsed problem {want}", "", want.to_json(), tags=tags)
         return
@@ -132,6 +132,7 @@ def roundtrip(r, P, D, label, tags):
 def check_case(case):
     r = CaseResult()
     if case["kind"] == "valid-batch":
+        earlier = None
         for v in case["items"]:
             text = valid_text(v)
             D = dom(v["typed"])
@@ -142,7 +143,14 @@ def check_case(case):
                 continue
             if len(v["atoms"]) + len(v["fluents"]) >= 2 or v["goals"] or v["numgoals"]:
                 r.nontrivial = True
+            n_before = len(r.fails)
             roundtrip(r, P, D, text, [v["decl"], "typed" if v["typed"] else "untyped"])
+            # the problem parsed (and exported) before this one over the same Domain object is exported again: it
+            # still round-trips to what it was
+            if earlier is not None and earlier[1] is D and len(r.fails) == n_before:
+                roundtrip(r, earlier[0], D, "[exported again after a later problem was parsed] " + earlier[2],
+                          ["earlier-problem"], snapshot=earlier[3])
+            earlier = (P, D, text, guard(observe_problem, P)) if len(r.fails) == n_before else None
             if len(r.fails) >= 4:
                 break
     else:
